@@ -38,6 +38,11 @@ CTYPE = {
     "&[u8]": "CSliceRef<u8>", "&[u16]": "CSliceRef<u16>", "&str": "CSliceRef<u8>",
     "&mut [u8]": "CSliceMut<u8>", "&mut [u16]": "CSliceMut<u16>",
     "Option<u64>": "COption<u64>", "Option<u32>": "COption<u32>",
+    "&[u32]": "CSliceRef<u32>", "&[u64]": "CSliceRef<u64>", "&[Pair]": "CSliceRef<Pair>",
+    "Option<Pair>": "COption<Pair>",
+    "OpaqueCallback<u32>": "OpaqueCallback<u32>", "OpaqueCallback<u64>": "OpaqueCallback<u64>",
+    "OpaqueCallback<Pair>": "OpaqueCallback<Pair>",
+    "CIterator<u32>": "CIterator<u32>", "CIterator<u64>": "CIterator<u64>", "CIterator<Pair>": "CIterator<Pair>",
     "X": "u32",  # the generic base is instantiated with X = u32
     "Self::Ret": "InnerBox",
 }
@@ -61,6 +66,11 @@ ARG_REPL = {
     "Option<u64>": ["Option<u32>", "u64"],
     "&mut u64": ["&u64", "&mut u32"],
     "X": ["u64", "u32"],
+    # element / payload type of the wrapped shapes (`Pair` is a #[repr(C)] struct of two u32)
+    "OpaqueCallback<u32>": ["OpaqueCallback<u64>", "OpaqueCallback<Pair>", "CIterator<u32>"],
+    "CIterator<u32>": ["CIterator<u64>", "CIterator<Pair>", "OpaqueCallback<u32>"],
+    "&[u32]": ["&[u64]", "&[Pair]"],
+    "Option<u32>": ["Option<u64>", "Option<Pair>"],
 }
 RET_REPL = {
     None: ["u64"],
@@ -71,7 +81,22 @@ RET_REPL = {
     "Result<u64, ()>": ["Result<u32, ()>", "Result<(), ()>", "u64"],
     "X": ["u64", "u32"],
     "Self::Ret": [],
+    "Result<u32, ()>": ["Result<u64, ()>", "Result<Pair, ()>"],
+    "Option<u32>": ["Option<u64>", "Option<Pair>"],
 }
+
+
+def outer(ty):
+    """Type constructor of a shape: an edit that keeps it and changes the C type is an element/payload edit."""
+    if ty is None:
+        return None
+    if ty.startswith("&mut ["):
+        return "&mut []"
+    if ty.startswith("&["):
+        return "&[]"
+    if "<" in ty:
+        return ty.split("<")[0]
+    return None
 RECVS = ["&self", "&mut self", "self"]
 
 
@@ -159,6 +184,12 @@ BASES = [
     ("intres", True, one("m0", "&self", [("a", "u64")], "Result<u64, ()>", int_result=True)),
     ("grp3", True, Def([simple_trait("Ta", "a0"), simple_trait("Tb", "b0"), simple_trait("Tc", "c0")],
                        group=("Grp", ["Ta"], ["Tb", "Tc"]))),
+    ("cb_arg", True, one("m0", "&self", [("a", "OpaqueCallback<u32>")], None)),
+    ("iter_arg", True, one("m0", "&mut self", [("a", "CIterator<u32>")], "u32")),
+    ("elems", True, one("m0", "&self", [("a", "&[u32]"), ("b", "Option<u32>")], "Result<u32, ()>")),
+    ("grp_cb", False, Def([Trait("Ta", [Meth("a0", "&self", [("a", "OpaqueCallback<u32>")], None)]),
+                           Trait("Tb", [Meth("b0", "&self", [("a", "CIterator<u32>")], "Option<u32>")])],
+                          group=("Grp", ["Ta"], ["Tb"]))),
     ("own_opt", False, one("m0", "self", [("a", "Option<u64>")], "u64")),
     ("mut_unit", False, one("m0", "&mut self", [], None)),
     ("str_outparam", False, one("m0", "&self", [("a", "&str"), ("b", "&mut u64")], "Option<u64>")),
@@ -215,7 +246,8 @@ def trait_edits(d, tname, prefix="", kprefix=""):
         for j, (pn, pt) in enumerate(m.args):
             for new in ARG_REPL.get(pt, []):
                 same = ctype(new, base_t.int_result) == ctype(pt, base_t.int_result)
-                emit("arg:%d.%d:%s" % (i, j, new), "arg_same_ctype" if same else "arg",
+                elem = outer(pt) is not None and outer(pt) == outer(new)
+                emit("arg:%d.%d:%s" % (i, j, new), "arg_same_ctype" if same else ("arg_elem" if elem else "arg"),
                      lambda t, i=i, j=j, new=new: t.methods[i].args[j].__setitem__(1, new),
                      OBSERVE if same else NOT_VALID,
                      "%s -> %s keeps the C type %s" % (pt, new, ctype(pt, False)) if same else "")
@@ -224,7 +256,8 @@ def trait_edits(d, tname, prefix="", kprefix=""):
                  OBSERVE, "parameter name only; no C type changes")
         for new in RET_REPL.get(m.ret, []):
             same = ctype(new, base_t.int_result) == ctype(m.ret, base_t.int_result)
-            emit("ret:%d:%s" % (i, new), "ret_same_ctype" if same else "ret",
+            elem = outer(m.ret) is not None and outer(m.ret) == outer(new)
+            emit("ret:%d:%s" % (i, new), "ret_same_ctype" if same else ("ret_elem" if elem else "ret"),
                  lambda t, i=i, new=new: setattr(t.methods[i], "ret", new),
                  OBSERVE if same else NOT_VALID,
                  "%s -> %s keeps the C type" % (m.ret, new) if same else "")
@@ -294,7 +327,7 @@ def group_edits(d):
     # edits inside member traits (one mandatory, one optional): method-level changes seen through the group
     for tn in (mand[0], opt[-1]):
         for (n, k, nd, e, note) in trait_edits(d, tn, prefix="member:%s:" % tn, kprefix="member_"):
-            if k[len("member_"):] in ("rename", "recv", "arg", "ret", "add"):
+            if k[len("member_"):] in ("rename", "recv", "arg", "ret", "arg_elem", "ret_elem", "add"):
                 out.append((n, k, nd, e, note))
     return out
 
@@ -307,13 +340,17 @@ def edits_of(d):
         if t.name != d.main:
             # helper trait of a wrapped associated type: its object is the return C type of the main trait
             for (n, k, nd, e, note) in trait_edits(d, t.name, prefix="inner:", kprefix="inner_"):
-                if k[len("inner_"):] in ("rename", "recv", "arg", "ret", "add"):
+                if k[len("inner_"):] in ("rename", "recv", "arg", "ret", "arg_elem", "ret_elem", "add"):
                     out.append((n, k, nd, e, note))
     return out
 
 
 # ---------------------------------------------------------------------------------------------
 # emission
+
+# (family base, unrelated base, in quick tier): both must be quick bases
+SEQ_FAMILIES = [("ref_u64", "mut_slice", True), ("grp3", "three", True), ("cb_arg", "iter_arg", False)]
+SEQ_DEPTH = {"quick": 3, "thorough": 3}
 
 CHUNK = 6   # edited twins per shard crate (plus the base): keeps every rustc process short
 
@@ -327,7 +364,8 @@ def module(modname, d):
              "    #![allow(unused, clippy::all)]",
              "    use abi_stable::{type_layout::TypeLayout, StableAbi};",
              "    use cglue::prelude::v1::*;",
-             "    use cglue::trait_group::VerifyLayout;"]
+             "    use cglue::trait_group::VerifyLayout;",
+             "    use super::Pair;"]
     for ln in d.render().split("\n"):
         lines.append("    " + ln)
     lines.append("    pub fn layout(k: u8) -> &'static TypeLayout {")
@@ -406,6 +444,8 @@ def generate(out_dir, repo_dir="/repo", explore_dir="/verif/engine/explore"):
         write_if_changed(os.path.join(cdir, "Cargo.toml"), cargo)
         src = ["// generated by /verif/gen/layout_gen.py - do not edit",
                "// base `%s` and %d single-edit twins; every module is an independent macro expansion" % (sh["base"], len(sh["twins"])),
+               "/// element / payload type used by the element-type edits (same item for the base and its twins)",
+               "#[repr(C)]", "#[derive(::abi_stable::StableAbi, Clone, Copy)]", "pub struct Pair(pub u32, pub u32);",
                module("a", sh["base_def"])]
         for (mod, edit, kind, nd, e, note) in sh["twins"]:
             src.append("// edit: %s" % edit)
@@ -476,16 +516,43 @@ def generate(out_dir, repo_dir="/repo", explore_dir="/verif/engine/explore"):
                         lay, sh["crate"], k, rust_str(src_a)))
                 n_cases["thorough"] += 1
                 n_cases["quick"] += 1 if q else 0
+    # call-sequence families: A (base), A' (identical twin), B (single-edit twin), C (unrelated base)
+    fam_rows = []
+    n_seq = {"quick": 0, "thorough": 0}
+    n_ops = 5 * 5 + 4 * 5   # compare_layouts over {A, A', B, C, missing}^2 + check::<T>(found) for 4 types x 5 found
+    for (fname, other, fquick) in SEQ_FAMILIES:
+        sh, osh = first_shard[fname], first_shard[other]
+        assert sh["quick"] and osh["quick"], "sequence families use quick bases (Box container is always compiled)"
+        ident = [t for t in sh["twins"] if t[1] == "identical"][0]
+        judged = [t for t in sh["twins"] if t[4] == NOT_VALID]
+        pref = [t for t in judged if t[2] in ("arg", "recv", "ret", "arg_elem", "remove_optional")]
+        edit = (pref or judged)[0]
+        members = [
+            ("A", "base `%s`" % fname, 0, "%s::a" % sh["crate"], sh["base_def"].render()),
+            ("A'", "identical twin of `%s`" % fname, 0, "%s::%s" % (sh["crate"], ident[0]), ident[3].render()),
+            ("B", "`%s` with edit `%s`" % (fname, edit[1]), 1, "%s::%s" % (sh["crate"], edit[0]), edit[3].render()),
+            ("C", "unrelated base `%s`" % other, 2, "%s::a" % osh["crate"], osh["base_def"].render()),
+        ]
+        ms = ", ".join(
+            "Member { label: %s, what: %s, class: %d, layout: || %s::layout(0), check: |l| %s::check(0, l), src: %s }" % (
+                rust_str(l), rust_str(w), c, path, path, rust_str(src)) for (l, w, c, path, src) in members)
+        fam_rows.append("    Family { name: %s, quick: %s, members: [%s] }," % (rust_str(fname), "true" if fquick else "false", ms))
+        for tier in ("quick", "thorough"):
+            if tier == "thorough" or fquick:
+                n_seq[tier] += sum(n_ops ** k for k in range(1, SEQ_DEPTH[tier] + 1))
     gen = "\n".join([
         "// generated by /verif/gen/layout_gen.py - do not edit",
         "// %d bases, %d shard crates, cases: quick %d / thorough %d" % (len(BASES), len(shards), n_cases["quick"], n_cases["thorough"]),
         "pub const N_BASES_QUICK: usize = %d;" % sum(1 for b in BASES if b[1]),
         "pub const N_BASES_ALL: usize = %d;" % len(BASES),
-        "use crate::{Entry, Expect};",
-        "pub static TABLE: &[Entry] = &["] + rows + ["];", ""])
+        "pub const SEQ_DEPTH_QUICK: usize = %d;" % SEQ_DEPTH["quick"],
+        "pub const SEQ_DEPTH_THOROUGH: usize = %d;" % SEQ_DEPTH["thorough"],
+        "use crate::{Entry, Expect, Family, Member};",
+        "pub static TABLE: &[Entry] = &["] + rows + ["];",
+        "pub static FAMILIES: &[Family] = &["] + fam_rows + ["];", ""])
     write_if_changed(os.path.join(out_dir, "h_layout", "src", "generated.rs"), gen)
     return {"bases": len(BASES), "shards": len(shards), "quick_shards": sum(1 for s in shards if s["quick"]),
-            "twins": sum(len(s["twins"]) for s in shards), "cases": n_cases}
+            "twins": sum(len(s["twins"]) for s in shards), "cases": n_cases, "sequences": n_seq}
 
 
 if __name__ == "__main__":
